@@ -265,15 +265,17 @@ Definition sblookup_agree_statement : Prop :=
 
 (* ... and in the form in which the node lemmas use it: everything known at that point is offered
    as a premise (SimA2Node.v shows that the statements above imply these) *)
-Definition lookup_agree_hyp : Prop :=
+Definition lookup_agree_hyp_for (ok : cache -> Prop) : Prop :=
   forall st T W w s0 p f sa skw wl cached,
+    ok (w_old w) ->
     SimSetup T W p w s0 -> HInv w -> old_keys_ok (w_old w) ->
     (forall y, inprog w y <-> In y st) -> tgt_conds st (w_old w) p ->
     build_file_cache_lookup p f sa skw w = (wl, inl cached) ->
     (cached = None <-> core_hit s0 s0 p f sa skw = None).
 
-Definition sblookup_agree_hyp : Prop :=
+Definition sblookup_agree_hyp_for (ok : cache -> Prop) : Prop :=
   forall st T W w s f sa skw wl cached,
+    ok (w_old w) ->
     Sim4 T W w s -> (forall y, inprog w y <-> In y st) ->
     sanitized sa = true -> sanitized skw = true -> pv_wf sa = true -> pv_wf skw = true ->
     cache_has_subbuild (w_new w) (subbuild_key f sa skw) = false ->
@@ -283,8 +285,9 @@ Definition sblookup_agree_hyp : Prop :=
 (* (b) the replayed state corresponds: when both sides accept the record, reusing it
    (_apply_cached_suboperations, _use_cached_operation / adopt) leads to related states, and
    leaves the files of the running functions alone *)
-Definition hit_agree_hyp : Prop :=
+Definition hit_agree_hyp_for (ok : cache -> Prop) : Prop :=
   forall st T W w s0 p c f sa skw wl co w1 r fnode subs' ret' rr,
+    ok (w_old w) ->
     SimSetup T W p w s0 -> HInv w -> old_keys_ok (w_old w) ->
     (forall y, inprog w y <-> In y st) -> tgt_conds st (w_old w) p ->
     build_file_cache_lookup p f sa skw w = (wl, inl (Some co)) ->
@@ -306,8 +309,9 @@ Definition sb_reuse (fname : string) (sargs skw : pyval) (co : op) : M (option (
   | inr e => ret (Some (inr (e, OSubbuild fname sargs skw (op_subs co) (op_ret co) true true)))
   end)).
 
-Definition sbhit_agree_hyp : Prop :=
+Definition sbhit_agree_hyp_for (ok : cache -> Prop) : Prop :=
   forall st T W w s f sa skw wl co w1 r subs' ret' rr,
+    ok (w_old w) ->
     Sim4 T W w s -> (forall y, inprog w y <-> In y st) ->
     sanitized sa = true -> sanitized skw = true -> pv_wf sa = true -> pv_wf skw = true ->
     cache_has_subbuild (w_new w) (subbuild_key f sa skw) = false ->
@@ -320,9 +324,17 @@ Definition sbhit_agree_hyp : Prop :=
       (forall y, inprog w1 y <-> inprog w y) /\
       (forall y, inprog w y -> lookup (w_fs w1) y = lookup (w_fs w) y) /\ w_old w1 = w_old w.
 
+(* the hypotheses for every previous cache; the parameter [ok] allows to restrict them to a class of
+   previous caches (e.g. caches without records: there the four hypotheses hold, SimAMain.v) *)
+Definition lookup_agree_hyp : Prop := lookup_agree_hyp_for (fun _ => True).
+Definition sblookup_agree_hyp : Prop := sblookup_agree_hyp_for (fun _ => True).
+Definition hit_agree_hyp : Prop := hit_agree_hyp_for (fun _ => True).
+Definition sbhit_agree_hyp : Prop := sbhit_agree_hyp_for (fun _ => True).
+
 (* ------------------------------------------------------------------ the statements of the nodes *)
-Definition bf_node_statement : Prop :=
+Definition bf_node_statement_for (ok : cache -> Prop) : Prop :=
   forall st p c fname a kw fn T W w s tg pend w1 r o,
+    ok (w_old w) ->
     tgt_conds st (w_old w) p ->
     bf_body_ok st (w_old w) p (fn p) ->
     Sim4 T W w s -> Ctx4 st tg pend w ->
@@ -331,8 +343,9 @@ Definition bf_node_statement : Prop :=
       core_bf_node p c fname a kw (fun sa skw => core_run (fn p sa skw) (Some p) None []) s = (s1, (r', o')) ->
       node_post st tg pend W w w1 r o s1 r' o'.
 
-Definition sb_node_statement : Prop :=
+Definition sb_node_statement_for (ok : cache -> Prop) : Prop :=
   forall st fname a kw fn T W w s tg pend w1 r o,
+    ok (w_old w) ->
     pv_wf a = true -> pv_wf kw = true ->
     sb_body_ok st (w_old w) fn ->
     Sim4 T W w s -> Ctx4 st tg pend w ->
@@ -340,3 +353,6 @@ Definition sb_node_statement : Prop :=
     forall s1 r' o',
       core_sb_node fname a kw (fun sa skw => core_run (fn sa skw) None None []) s = (s1, (r', o')) ->
       node_post st tg pend W w w1 r o s1 r' o'.
+
+Definition bf_node_statement : Prop := bf_node_statement_for (fun _ => True).
+Definition sb_node_statement : Prop := sb_node_statement_for (fun _ => True).
